@@ -171,5 +171,34 @@ pub fn job_c18(out_dir: &str, tier: &str, seed: u64) {
         let rec = json!({"id": format!("c18-{n}"), "clauses": ["C18"], "hs": [], "obs": [fresh, after.0, after.1]});
         sh.push(&rec, &json!({"id": rec["id"], "history": hi, "cfg": b_cfg, "input_len": b_in.len(), "cuts": b_cuts}), None, true);
     }
+    // history of the process: a rewrite must not depend on which selectors / settings this process has seen before.
+    // The reference observation comes from a fresh child process (`lh run`); then a "neighbour" configuration runs in
+    // this process (on another thread) and the configuration itself is observed here, twice.
+    let fresh_process = |cfg: &Value, input: &[u8], cuts: &[usize]| -> Value {
+        use std::io::Write;
+        let exe = std::env::current_exe().unwrap();
+        let mut ch = std::process::Command::new(exe).arg("run").stdin(std::process::Stdio::piped()).stdout(std::process::Stdio::piped()).stderr(std::process::Stdio::null()).spawn().unwrap();
+        ch.stdin.take().unwrap().write_all(format!("{}\n", json!({"cfg": cfg, "input": input, "cuts": cuts})).as_bytes()).unwrap();
+        let out = ch.wait_with_output().unwrap();
+        let v: Value = serde_json::from_slice(out.stdout.split(|&b| b == b'\n').next().unwrap_or(b"{}")).unwrap_or(json!({"tl": []}));
+        let tl: Vec<Value> = v["tl"].as_array().cloned().unwrap_or_default();
+        observation("fresh-process", &tl, &|_: &str| true)
+    };
+    let doc = "<div class=c><p>1</p><P\u{3000} id=x>2</P\u{3000}><\u{a0}p>3</\u{a0}p><p class=C>4</p><x-y>5</x-y></div>".as_bytes().to_vec();
+    let neighbours: Vec<(&str, &str)> = vec![("p", "p\u{3000}"), ("p\u{3000}", "p"), ("\u{a0}p", "p"), ("p", "\u{a0}p"), ("p ", "p"), ("div > p", "div>p"), (".c", ".C"), (".C", ".c"),
+        ("P", "p"), ("div p", "div  p\u{3000}"), ("[class=c]", "[class=C]"), ("[class=\"c\" i]", "[class=\"c\"]"), ("x-y", "X-Y"), ("p:nth-child(1)", "p:nth-child(1 )"), ("*", "* "), ("#x", "#X")];
+    for (hi, (first, second)) in neighbours.iter().enumerate() {
+        let mk = |sel: &str| json!({"strict": false, "elem": [{"sel": sel, "element": [{"op":"before","a":["[m]"]}], "text": []}]});
+        let (ca, cb) = (mk(first), mk(second));
+        let fresh = fresh_process(&cb, &doc, &[7]);
+        let (ca2, cb2, d2) = (ca.clone(), cb.clone(), doc.clone());
+        let after = std::thread::spawn(move || { crate::driver::silence_panics();
+            let _ = driver::run(&ca2, &d2, &[3], &RunOpts { send: true, ..RunOpts::default() });
+            observation("after-a-neighbour-selector-in-this-process", &driver::run(&cb2, &d2, &[7], &RunOpts { send: true, ..RunOpts::default() }), &|_: &str| true) }).join().unwrap();
+        let again = observation("again-on-the-main-thread", &driver::run(&cb, &doc, &[7], &RunOpts::default()), &all);
+        n += 1;
+        let rec = json!({"id": format!("c18-{n}"), "clauses": ["C18"], "hs": [], "obs": [fresh, after, again]});
+        sh.push(&rec, &json!({"id": rec["id"], "process_history": hi, "first": first, "cfg": cb, "input": doc, "cuts": [7]}), None, true);
+    }
     sh.finish(json!({"rule": "seeded (configuration, input, chunking) jobs (documents, fragment sequences, foreign content, random bytes; observer and mutating handler sets; encodings; memory limits; injected handler failures): the sequential run versus a repeat (also after a large rewrite lived and died on the same thread, versus a fresh thread), the Send handler types, a Send rewriter moved to a fresh thread for every write and for end(), and two concurrent executions on different threads of a pool that runs all jobs with yields and spins between writes (selectors are parsed concurrently on the pool threads)."}));
 }
